@@ -145,12 +145,28 @@ func vpH_c03_command() {
 	case 2:
 		step.Set("commands", c1)
 		expect("command", c1)
-	case 3:
-		step.Set("command", []any{c1, c2})
-		expect("command", c1+"\n"+c2)
-	case 4:
-		step.Set("commands", []any{c1, c2})
-		expect("command", c1+"\n"+c2)
+	case 3, 4:
+		// a list of commands: every entry is one line, also an empty, null or
+		// numeric one, wherever it stands
+		list, joined := []any{c1, c2}, c1+"\n"+c2
+		shapes := 0
+		if cmdMode == 4 {
+			shapes = 3
+		}
+		switch vpInt(0, shapes) {
+		case 1:
+			list, joined = []any{c1, nil, c2}, c1+"\n\n"+c2
+		case 2:
+			list, joined = []any{nil, c1}, "\n"+c1
+		case 3:
+			list, joined = []any{c1, 2, ""}, c1+"\n2\n"
+		}
+		if cmdMode == 3 {
+			step.Set("command", list)
+		} else {
+			step.Set("commands", list)
+		}
+		expect("command", joined)
 	case 5: // both keys: nothing may be lost
 		step.Set("command", c1)
 		step.Set("commands", []any{c2})
